@@ -604,7 +604,7 @@ def outcome_key(o):
 def c02(tier):
     t0 = time.time()
     rep = vlib.Reporter("C02")
-    n = 350 if tier == "quick" else 5000
+    n = 700 if tier == "quick" else 5000
     mods = gen_campaign(vlib.seed() * 1000 + 2, n)
     obs = run_real(mods, [["all", "silent"], ["all", "verbose"]], pre=True, stages=True)
     programs = pairs = disagreements = 0
